@@ -19,6 +19,7 @@ import (
 	"math/rand"
 	"os"
 	"sort"
+	"strings"
 
 	"github.com/sarchlab/akita/v4/mem/vm"
 	"github.com/sarchlab/akita/v4/sim"
@@ -73,6 +74,7 @@ type Scenario struct {
 	NDisp    int     `json:"ndisp"`
 	Overhead [3]int  `json:"overhead"` // launch, subsequent launch, kernel completion
 	Probe    bool    `json:"probe"`
+	Alg      string  `json:"alg,omitempty"` // "", "round-robin", "greedy", "partition" (the last two need the verif hook)
 	Steps    []Step  `json:"steps"`
 }
 
@@ -128,6 +130,9 @@ type run struct {
 	maps     map[string]*mapInfo
 	byWG     map[[2]int]*mapInfo
 	count    map[string]int
+	awaited  map[string]int
+	nev      int
+	runaway  bool
 	stats    map[string]int
 	cyc      int
 	dead     bool
@@ -135,7 +140,16 @@ type run struct {
 	emu      *emuSide
 }
 
+// maxEvents bounds one run's trace: a CP that never goes idle (e.g. one that keeps sending) is cut off;
+// the prefix recorded so far is still validated.
+const maxEvents = 20000
+
 func (r *run) emit(e string, f ab.Rec) {
+	r.nev++
+	if r.nev > maxEvents {
+		r.dead, r.runaway = true, true
+		return
+	}
 	r.count[e]++
 	r.lastIdle = e == "Idle"
 	r.rec.Emit(e, f)
@@ -215,29 +229,39 @@ func maxNwf(wgs [][2]int) int {
 func newRun(rec *ab.Recorder, sc *Scenario, emu bool) *run {
 	r := &run{rec: rec, eng: ab.NewEngine(), cfg: sc.CUs, cuIndex: map[sim.RemotePort]int{},
 		byPacket: map[*kernels.HsaKernelDispatchPacket]*kernel{}, byReqID: map[string]*kernel{},
-		maps: map[string]*mapInfo{}, byWG: map[[2]int]*mapInfo{}, count: map[string]int{}, stats: map[string]int{}}
+		maps: map[string]*mapInfo{}, byWG: map[[2]int]*mapInfo{}, count: map[string]int{}, awaited: map[string]int{},
+		stats: map[string]int{}}
 	rec.ResetIDs()
 	b := cp.MakeBuilder().WithEngine(r.eng).WithFreq(1 * sim.GHz).
 		WithConstantKernelLaunchOverhead(sc.Overhead[0]).
 		WithSubsequentKernelLaunchOverhead(sc.Overhead[1]).
 		WithConstantKernelOverhead(sc.Overhead[2])
+	var all []cp.CUInterfaceForCP
 	if emu {
 		r.emu = newEmuSide(r, len(sc.CUs))
 		for i, cu := range r.emu.cus {
 			b = b.WithCU(cu)
+			all = append(all, cu)
 			r.cuIndex[cu.DispatchingPort()] = i + 1
 		}
 	} else {
 		for i, c := range sc.CUs {
 			cu := &fakeCU{name: fmt.Sprintf("CU%d", i+1), cfg: c}
 			b = b.WithCU(cu)
+			all = append(all, cu)
 			r.cuIndex[cu.DispatchingPort()] = i + 1
 		}
 	}
 	r.resident = make([][]*mapInfo, len(sc.CUs))
 	r.cp = b.Build("CP")
-	if sc.NDisp > 0 && sc.NDisp < len(r.cp.Dispatchers) {
-		r.cp.Dispatchers = r.cp.Dispatchers[:sc.NDisp] // public field: fewer dispatchers than the builder's 8
+	nd := sc.NDisp
+	if nd <= 0 || nd > len(r.cp.Dispatchers) {
+		nd = len(r.cp.Dispatchers)
+	}
+	if sc.Alg != "" && sc.Alg != "round-robin" {
+		rebuildDispatchers(r.cp, sc.Alg, nd, all, sc.Overhead)
+	} else {
+		r.cp.Dispatchers = r.cp.Dispatchers[:nd] // public field: fewer dispatchers than the builder's 8
 	}
 	conn := ab.NewConn("Conn")
 	for _, n := range []string{"ToDriver", "ToDispatcher", "ToCUs", "ToTLBs", "ToRDMA", "ToPMC", "ToAddressTranslators", "ToCaches"} {
@@ -360,8 +384,13 @@ func (r *run) runUntil(t sim.VTimeInSec) {
 	}
 }
 
+// await ticks until cond holds: at most max cycles, and not at all once the CP sleeps (no event pending:
+// ticking cannot change anything before the next environment step).
 func (r *run) await(max int, cond func() bool) bool {
 	for i := 0; i < max && !cond() && !r.dead; i++ {
+		if i > 0 && r.eng.Pending() == 0 {
+			break
+		}
 		r.tick(1)
 	}
 	return cond()
@@ -486,6 +515,8 @@ func (r *run) takeRsp() bool {
 
 const awaitMax = 24
 
+var verbose bool
+
 func (r *run) step(s Step) {
 	ok := true
 	switch s.A {
@@ -506,6 +537,9 @@ func (r *run) step(s Step) {
 		}
 		for i := 0; i < awaitMax && !present() && !r.dead; i++ {
 			if !r.takeMap() {
+				if i > 0 && r.eng.Pending() == 0 {
+					break
+				}
 				r.tick(1)
 			}
 		}
@@ -514,6 +548,22 @@ func (r *run) step(s Step) {
 		for _, kw := range s.WGs {
 			if mi := r.byWG[kw]; mi != nil && r.isResident(mi) {
 				byCU[mi.cu-1] = append(byCU[mi.cu-1], mi)
+			}
+		}
+		if len(byCU) == 0 {
+			// the real CP gave the CU to another work-group than the behaviour did (the model leaves the
+			// order of dispatchers free): keep the scenario moving with the oldest resident work-group
+			var oldest *mapInfo
+			for c := range r.resident {
+				for _, mi := range r.resident[c] {
+					if oldest == nil || mi.m < oldest.m {
+						oldest = mi
+					}
+				}
+			}
+			if oldest != nil {
+				byCU[oldest.cu-1] = []*mapInfo{oldest}
+				r.stats["complete_substituted"]++
 			}
 		}
 		ok = len(byCU) > 0
@@ -529,8 +579,14 @@ func (r *run) step(s Step) {
 		r.await(awaitMax, func() bool { return r.toDriver.PeekOutgoing() != nil })
 		ok = r.takeRsp()
 	case "Await":
-		c0 := r.count[s.E]
-		ok = r.await(awaitMax, func() bool { return r.count[s.E] > c0 })
+		// the n-th await of an event kind is satisfied once n such events happened (the real CP may have
+		// done several of them in one tick already)
+		r.awaited[s.E]++
+		n := r.awaited[s.E]
+		ok = r.await(awaitMax, func() bool { return r.count[s.E] >= n })
+		if !ok {
+			r.awaited[s.E] = r.count[s.E]
+		}
 	case "Tick":
 		n := s.N
 		if n == 0 {
@@ -539,6 +595,9 @@ func (r *run) step(s Step) {
 		r.tick(n)
 	default:
 		panic("unknown step " + s.A)
+	}
+	if verbose {
+		r.rec.Emit("Step", ab.Rec{"a": s.A, "ev": s.E, "wgs": s.WGs, "ok": ok})
 	}
 	if ok {
 		r.stats["steps_done"]++
@@ -573,7 +632,11 @@ func (r *run) allAnswered() bool {
 // delivered, every resident work-group completes (oldest first, one message each), every response is
 // taken.  Returns false when the bound was hit (infrastructure problem, never a verdict).
 func (r *run) drain(hold bool) bool {
-	for i := 0; i < 200000 && !r.dead; i++ {
+	for i := 0; !r.dead; i++ {
+		if i >= 20000 {
+			r.dead, r.runaway = true, true
+			break
+		}
 		progress := false
 		for r.takeMap() {
 			progress = true
@@ -654,7 +717,7 @@ func (r *run) finish(probe bool) bool {
 	if !r.dead {
 		r.emit("Quiesce", ab.Rec{"pending_events": r.eng.Pending(), "cycle": fmt.Sprint(r.cyc)})
 	}
-	return ok
+	return ok && !r.runaway
 }
 
 // ----------------------------------------------------------------- random environments
@@ -663,7 +726,7 @@ func pick(rng *rand.Rand, xs ...int) int { return xs[rng.Intn(len(xs))] }
 
 func randomCfg(rng *rand.Rand) *Scenario {
 	sc := &Scenario{}
-	ncu := pick(rng, 1, 2, 2, 3, 4)
+	ncu := pick(rng, 1, 2, 2, 3, 4, 6)
 	mk := func() CUCfg {
 		ns := pick(rng, 1, 2, 2, 4)
 		c := CUCfg{}
@@ -682,13 +745,39 @@ func randomCfg(rng *rand.Rand) *Scenario {
 		c.LDS = granL * pick(rng, 1, 2, 3, 4, 8)
 		return c
 	}
-	first := mk()
-	uniform := rng.Intn(4) > 0
-	for i := 0; i < ncu; i++ {
-		if uniform {
-			sc.CUs = append(sc.CUs, first)
-		} else {
+	// a shape whose whole capacity one work-group can take (full-CU probe at the end of the run)
+	mkProbeable := func() CUCfg {
+		ns := pick(rng, 1, 2, 2, 4)
+		slots := pick(rng, 1, 2, 2, 4)
+		c := CUCfg{}
+		vr := granV * slots * pick(rng, 1, 2, 3)
+		for i := 0; i < ns; i++ {
+			c.Slots = append(c.Slots, slots)
+			c.VRegs = append(c.VRegs, vr)
+		}
+		c.SRegs = granS * ns * slots * pick(rng, 1, 2, 3)
+		c.LDS = granL * pick(rng, 1, 2, 3, 4, 8)
+		return c
+	}
+	switch rng.Intn(7) {
+	case 6: // the shape the shipped timing CU reports (amd/timing/cu): 4 SIMDs x 10 wavefronts
+		ncu = pick(rng, 1, 2, 4)
+		for i := 0; i < ncu; i++ {
+			sc.CUs = append(sc.CUs, CUCfg{Slots: []int{10, 10, 10, 10}, SRegs: 3200, VRegs: []int{256, 256, 256, 256}, LDS: 65536})
+		}
+	case 0: // heterogeneous CUs
+		for i := 0; i < ncu; i++ {
 			sc.CUs = append(sc.CUs, mk())
+		}
+	case 1:
+		first := mk()
+		for i := 0; i < ncu; i++ {
+			sc.CUs = append(sc.CUs, first)
+		}
+	default:
+		first := mkProbeable()
+		for i := 0; i < ncu; i++ {
+			sc.CUs = append(sc.CUs, first)
 		}
 	}
 	sc.NDisp = pick(rng, 1, 2, 2, 3, 4, 8)
@@ -705,6 +794,13 @@ func randomKernel(rng *rand.Rand, cfg []CUCfg) KDesc {
 		d.S = pick(rng, 0, 1, 8, 15, 16, 17, 24, 32, 33, 48, 64)
 		d.V = pick(rng, 0, 1, 3, 4, 5, 8, 9, 12, 16)
 		d.L = pick(rng, 0, 0, 1, 100, 255, 256, 257, 512, 700, 1024)
+		if cfg[0].LDS >= 65536 { // big CUs: make work-groups that actually fill them
+			nwf = pick(rng, 4, 8, 12, 16)
+			nwg = pick(rng, 3, 6, 10, 16, 24)
+			d.S = pick(rng, 16, 33, 64, 96, 102)
+			d.V = pick(rng, 8, 24, 64, 65, 128, 256)
+			d.L = pick(rng, 0, 4096, 16384, 32768, 40000, 65536)
+		}
 		switch rng.Intn(4) {
 		case 0: // two-dimensional, no partial work-groups
 			wy := pick(rng, 1, 2, 4)
@@ -744,7 +840,7 @@ func randomKernel(rng *rand.Rand, cfg []CUCfg) KDesc {
 // random delay, batched completion messages, lazy draining of both ports.
 func (r *run) random(rng *rand.Rand, nlaunch int, xbatch bool) {
 	launched := 0
-	pComplete := pick(rng, 1, 2, 4) // how eager the CUs are
+	pComplete := pick(rng, 1, 1, 2, 4) // how eager the CUs are
 	for steps := 0; steps < 60*nlaunch+300 && !r.dead; steps++ {
 		if launched >= nlaunch && r.allAnswered() {
 			break
@@ -774,7 +870,7 @@ func (r *run) random(rng *rand.Rand, nlaunch int, xbatch bool) {
 			which := []*mapInfo{first}
 			if rng.Intn(2) == 0 { // a batch, as the emulation CU sends them
 				for _, x := range res {
-					if x != first && (xbatch || x.k == first.k) && rng.Intn(2) == 0 {
+					if x != first && (xbatch || x.k == first.k) && rng.Intn(3) > 0 {
 						which = append(which, x)
 					}
 				}
@@ -800,6 +896,8 @@ func main() {
 	seed := flag.Int64("seed", 1, "seed")
 	xbatch := flag.Int("xbatch", 0, "every n-th random run lets CUs batch completions of different kernels (0 = never)")
 	nemu := flag.Int("emu", 0, "number of runs with real emulation CUs")
+	algs := flag.String("alg", "", "comma-separated placement algorithms the random runs rotate through (needs the verif hook)")
+	flag.BoolVar(&verbose, "v", false, "debugging: log scenario steps into the trace (such a trace is not validated)")
 	flag.Parse()
 	log.SetOutput(io.Discard)
 
@@ -813,7 +911,12 @@ func main() {
 	stats := map[string]int{}
 	incomplete := 0
 	begin := func(sc *Scenario, emu bool) *run {
-		rec.Emit("Reset", ab.Rec{"cus": sc.CUs, "ndisp": sc.NDisp, "overhead": sc.Overhead, "emu": emu})
+		// wc: the placement is work-conserving (any CU with room is used); "partition" pins work-groups to CUs
+		wc := 1
+		if sc.Alg == "partition" {
+			wc = 0
+		}
+		rec.Emit("Reset", ab.Rec{"cus": sc.CUs, "ndisp": sc.NDisp, "overhead": sc.Overhead, "emu": emu, "alg": sc.Alg, "wc": wc})
 		traces++
 		return newRun(rec, sc, emu)
 	}
@@ -846,8 +949,24 @@ func main() {
 		}
 	}
 	rng := rand.New(rand.NewSource(*seed))
+	var algList []string
+	if *algs != "" {
+		algList = strings.Split(*algs, ",")
+		if !hookAvailable {
+			fmt.Println("built without the dispatch-algorithm hook")
+			os.Exit(4)
+		}
+	}
 	for i := 0; i < *nrand; i++ {
 		sc := randomCfg(rng)
+		if len(algList) > 0 {
+			sc.Alg = algList[i%len(algList)]
+			if sc.Alg == "partition" { // partitions are pinned to CUs: only meaningful with identical CUs
+				for j := range sc.CUs {
+					sc.CUs[j] = sc.CUs[0]
+				}
+			}
+		}
 		r := begin(sc, false)
 		r.random(rng, 1+rng.Intn(*nl), *xbatch > 0 && i%*xbatch == *xbatch-1)
 		end(r, sc.Probe)
@@ -865,7 +984,4 @@ func main() {
 	stats["incomplete"] = incomplete
 	js, _ := json.Marshal(stats)
 	fmt.Println(string(js))
-	if incomplete > 0 {
-		os.Exit(3)
-	}
 }
